@@ -90,7 +90,7 @@ func (t *DST) Reset(n int) {
 // Transform computes the Discrete Fourier Sine Transform of the input
 // data, src, placing the result in dst and returning it.
 // This transform is unnormalized; a call to Transform followed by
-// another call to Transform will multiply the input sequence by 2*(n-1),
+// another call to Transform will multiply the input sequence by 2*(n+1),
 // where n is the length of the sequence.
 //
 // If the length of src is not t.Len(), Transform will panic.
